@@ -178,6 +178,14 @@ class Loop:
                 self.blocked.remove(t)
                 self._step(t, timed_out=True)
 
+    def settle(self):
+        """run until nothing is ready or parked (blocked tasks whose condition became true are woken first)"""
+        while True:
+            self._wake()
+            if not self.ready and not self.parked:
+                return
+            self.run_until(lambda: not self.ready and not self.parked)
+
     def run(self, main):
         mt = self.create_task(main, 'main')
         self.run_until(lambda: mt.done_)
